@@ -624,6 +624,66 @@ static void origin_case(uint64_t idx, void *vctx)
     if (!vf_in_confirm) vf_outcome(vf_mix(h, idx));
 }
 
+/* ---------------- a mask with a past: used as a unified-alpha mask (where an alpha-less or solid-opaque mask is no mask at all), then given component alpha
+ * (now its colour channels are coverages), used, then switched back and used again.  Every one of the three drawings is judged by the equations. */
+static void mask_history_case(uint64_t idx, void *vctx)
+{
+    (void)vctx;
+    int dims[4] = { RC_NOPS, 3, 2, 2 }, v[4]; vf_decode(idx, dims, 4, v);
+    int op = rc_all_ops[v[0]], mk = v[1], di = v[2], cfg = v[3] ? PH_CFG_GENERAL : PH_CFG_DEFAULT;
+    static const uint32_t mcol = 0x00c08040u;                                      /* colour channels of the mask; its alpha is 1 by format / by the solid's alpha */
+    enum { N = 16 };
+    ph_fmt_t df, sf; ph_fmt_describe(di ? PIXMAN_x8r8g8b8 : PIXMAN_a8r8g8b8, di ? "x8r8g8b8" : "a8r8g8b8", &df); ph_fmt_describe(PIXMAN_a8r8g8b8, "a8r8g8b8", &sf);
+    static uint32_t sbuf[N + 8], dbuf[N + 8], d0[N + 8], mpix[4];
+    static rc_real S[N][4], D[N][4]; static unsigned S8[N][4], D8[N][4];
+    uint64_t ns = fmt_npix(&sf), nd = fmt_npix(&df);
+    for (int i = 0; i < N; i++) { uint32_t raw; float fl[4]; fmt_make_pixel(&sf, ((uint64_t)i * 41 + 5) % ns, &raw, fl, S[i], S8[i]); sbuf[i] = raw;
+                                  fmt_make_pixel(&df, ((uint64_t)i * 67 + 9) % nd, &raw, fl, D[i], D8[i]); d0[i] = raw; }
+    ph_set_cfg(cfg);
+    pixman_image_t *src = pixman_image_create_bits(PIXMAN_a8r8g8b8, N, 1, sbuf, sizeof sbuf - 16), *dst = pixman_image_create_bits(df.code, N, 1, dbuf, sizeof dbuf - 16), *msk;
+    if (mk == 0) { mpix[0] = mpix[1] = mcol | 0x5a000000u; msk = pixman_image_create_bits(PIXMAN_x8r8g8b8, 2, 1, mpix, 8); pixman_image_set_repeat(msk, PIXMAN_REPEAT_NORMAL); }
+    else if (mk == 1) { pixman_color_t c = { 0xc0c0, 0x8080, 0x4040, 0xffff }; msk = pixman_image_create_solid_fill(&c); }
+    else { mpix[0] = mcol | 0xff000000u; msk = pixman_image_create_bits(PIXMAN_a8r8g8b8, 1, 1, mpix, 4); pixman_image_set_repeat(msk, PIXMAN_REPEAT_PAD); }
+    static const char *mkn[3] = { "x8r8g8b8 2x1 REPEAT_NORMAL", "solid fill with alpha ffff", "a8r8g8b8 1x1 REPEAT_PAD with alpha ff" };
+    rc_real Mu[4] = { 1, 1, 1, 1 }, Mc[4] = { 1, 0xc0 / 255.0L, 0x80 / 255.0L, 0x40 / 255.0L };
+    uint32_t m8u = 0xff000000u, m8c = 0xff000000u | mcol;
+    int exact = rc_is_exact_op(op), integer_blend = rc_is_sep_blend(op) && !(op == PIXMAN_OP_COLOR_DODGE || op == PIXMAN_OP_COLOR_BURN || op == PIXMAN_OP_SOFT_LIGHT);
+    int blend = rc_is_sep_blend(op) || rc_is_hsl(op);
+    char cfgn[64]; uint64_t nt = 0, h = 0;
+    int dw[4] = { df.aw, df.rw, df.gw, df.bw }, dsft[4] = { df.as, df.rs, df.gs, df.bs };
+    for (int step = 0; step < 3 && !vf_failed(); step++) {
+        int ca = step == 1;
+        if (ca && rc_is_hsl(op)) continue;
+        if (step) pixman_image_set_component_alpha(msk, ca);
+        memcpy(dbuf, d0, sizeof d0);
+        pixman_image_composite32(op, src, msk, dst, 0, 0, 0, 0, 0, 0, N, 1);
+        vf_count_libcalls(1);
+        int mode = ca ? RC_MASK_CA : RC_MASK_UNIFIED, steps = integer_blend ? 3 : 1;
+        for (int i = 0; i < N; i++) {
+            uint32_t got = dbuf[i]; rc_real r[4];
+            if (blend && !valid_premul(S[i], D[i])) continue;
+            if (saturate_undefined(op, mode, S[i], ca ? Mc : Mu, D[i])) continue;
+            if (exact) {
+                uint32_t sv = S8[i][0] << 24 | S8[i][1] << 16 | S8[i][2] << 8 | S8[i][3], d8 = D8[i][0] << 24 | D8[i][1] << 16 | D8[i][2] << 8 | D8[i][3];
+                uint32_t exp = ph_from_8888(&df, rc_exact_pixel(op, mode, sv, ca ? m8c : m8u, d8)), dm = ph_defined_mask(&df);
+                if ((got & dm) != (exp & dm)) { vf_violation("c01-mask-history-mismatch", "op=%s cfg=[%s] dest %s, mask %s: drawing %d (%s): pixel %d got %x, equations give %x (source %08x, destination was %08x)", rc_op_name(op), ph_cfg_name(cfg, cfgn, sizeof cfgn), df.name, mkn[mk], step + 1,
+                                             step == 0 ? "unified alpha, first use" : step == 1 ? "after set_component_alpha(1)" : "after set_component_alpha(0) again", i, got, exp, sv, d0[i]); break; }
+            } else {
+                if (!rc_real_pixel(op, mode, S[i], ca ? Mc : Mu, D[i], r)) continue;
+                int bad = 0;
+                for (int k = 0; k < 4; k++) { if (!dw[k]) continue; unsigned u = (got >> dsft[k]) & ((1u << dw[k]) - 1); if (!within(u, r[k], steps, dw[k])) bad = 1; }
+                if (bad) { vf_violation("c01-mask-history-mismatch", "op=%s cfg=[%s] dest %s, mask %s: drawing %d (%s): pixel %d got %x, equations give (a,r,g,b)=(%.4Lf,%.4Lf,%.4Lf,%.4Lf), tolerance %d", rc_op_name(op), ph_cfg_name(cfg, cfgn, sizeof cfgn), df.name, mkn[mk], step + 1,
+                                        step == 0 ? "unified alpha, first use" : step == 1 ? "after set_component_alpha(1)" : "after set_component_alpha(0) again", i, got, r[0], r[1], r[2], r[3], steps); break; }
+            }
+            if (got != d0[i]) nt++;
+            h = vf_mix(h, got);
+        }
+    }
+    pixman_image_unref(src); pixman_image_unref(dst); pixman_image_unref(msk);
+    vf_count_eval(3 * N); vf_count_nontrivial(nt);
+    if (!vf_in_confirm) vf_outcome(vf_mix(h, idx));
+}
+
 typedef struct { fmt_ctx c; uint64_t first, count; } fmt_job;
 static fmt_job *fmt_jobs; static int fmt_njobs, fmt_cap; static uint64_t fmt_total;
 static void fmt_add(fmt_ctx *c, uint64_t strips)
@@ -741,6 +801,7 @@ int main(int argc, char **argv)
     vf_space_run("format-triples", fmt_total, fmt_case_all, NULL);
     vf_space_run("shared-storage-source-and-mask", 2 * 5 * 4 * 3 * 3 * 2 * 2 * 2 * 2, alias_case, NULL);
     vf_space_run("solid-fill-sources-16bit", (uint64_t)RC_NOPS * 11 * 3 * 4 * 3 * 2, solid_case, NULL);
+    vf_space_run("masks-that-change-between-unified-and-component-alpha", (uint64_t)RC_NOPS * 3 * 2 * 2, mask_history_case, NULL);
     vf_space_run("source-and-mask-origins-outside-the-images", (uint64_t)RC_NOPS * 3 * 3 * 3 * 3 * 3 * 2, origin_case, NULL);
     vf_space_run("indexed-sources-with-translucent-palette-entries", (uint64_t)RC_NOPS * 11 * 3 * 4 * 3 * 2, indexed_src_case, NULL);
     vf_bounds = th ? "exact: 13 ops x {none: full 2^32 (sc,sa,dc,da); unified: (sc,sa,ma) full 2^24 x (dc,da) in B8^2 + alpha cube; CA: (sc,mc,ma) full 2^24 x (sa,dc,da) in B6^3 and (sc,sa,mc) full 2^24 x (dc,da) in T^2 x ma in B6 [default chain; boundary alphabets under general-only]}; "
